@@ -270,7 +270,14 @@ func (value Value) hash(hash uint64) uint64 {
 		hash = fnv1a.AddUint64(hash, uint64(value.Int))
 
 	case TypeIDFloat:
-		hash = fnv1a.AddUint64(hash, math.Float64bits(value.Float))
+		// Values which compare as equal must hash equally: normalize negative zero and NaN payloads.
+		float := value.Float
+		if float == 0 {
+			float = 0
+		} else if math.IsNaN(float) {
+			float = math.NaN()
+		}
+		hash = fnv1a.AddUint64(hash, math.Float64bits(float))
 
 	case TypeIDBoolean:
 		if value.Boolean {
